@@ -101,7 +101,9 @@ class G:
                 c, m = "(ELit %s)" % KCOQ[b], SMALL[b]
             else:
                 c, m, _ = self.expr(env, b, 1)
-            return "(SOpAssign %s %d %s)" % (o, x, c), ["%sv%d %s %s" % (pad, x, s, m)]
+            # `x op= e` is a binary operator of the precedence table, and `is` binds looser than it: without the parentheses
+            # `v1 += (v0) is (v3)` is `(v1 += v0) is v3` (soak seed 94: a false alarm of the rendering, DESIGN 7B)
+            return "(SOpAssign %s %d %s)" % (o, x, c), ["%sv%d %s (%s)" % (pad, x, s, m)]
         if choice < 0.8 and depth > 0:
             c, m, _ = self.expr(env, "bool", 2)
             tc, tm, _ = self.block(env, depth - 1, r.randint(0, 2), ind + 1)
